@@ -750,9 +750,11 @@ class YearOptionStream(Stream):
         return None if impl_out == want else "year-option: %r gives %r, expected %r" % (ys, impl_out, want)
 
 
+import c20s11     # noqa: E402  (needs the helpers above)
+
 PROPERTY = Property(
     pid="C20",
-    streams=[textcorr.CSearchStream(), MakeParseStream(), TheoremStream(), TheoremFullStream(), textcorr.MergeStream(), MergeOracleStream(), MergeTheoremStream(), MergeCoverageStream(), HeaderMergeStream(), YearOptionStream()] + pystr.DIGIT_STREAMS,
+    streams=[textcorr.CSearchStream(), MakeParseStream(), TheoremStream(), TheoremFullStream(), textcorr.MergeStream(), MergeOracleStream(), MergeTheoremStream(), MergeCoverageStream(), HeaderMergeStream(), YearOptionStream()] + pystr.DIGIT_STREAMS + c20s11.STREAMS,
     assumptions=[
         "CPython's re engine on the three copyright patterns is mirrored by Model.searchLine (prefix extension candidates in backtracking "
         "priority, greedy white space, year alternatives, lazy statement up to END) and compared on every run; END is generated from the source",
